@@ -61,8 +61,7 @@ def infer_score_with_chords_durations(sequence, chords, instruments, bars):
                     voice_name = instrument + '__' + str(offsets_voices.get(track, 0) + int(voice))
                     cont = continuations.get(voice_name, None)
                     chord_dict[voice_name], cont = _parse_voice(voice_notes, chord,time_start, time_end, 1, cont, is_drum=instrument.startswith('drum'))
-                    if cont is not None:
-                        continuations[voice_name] = cont
+                    continuations[voice_name] = cont
 
         final_chord = chord(**chord_dict)
         if len(chord_dict) == 0:
